@@ -63,6 +63,13 @@ def configs(prop, tier, rng):
     # every index takes the corrupted role once for n = 3 (checks that loop over "the other parties" are easily asymmetric)
     if not q or prop in ("C03", "C04"):
         out.append(("n3.first", c3, 3, 2, [1, 2], 0))
+    if prop == "C02" or not q:
+        # the highest index as corrupted evaluator, both garblers output parties, an output that depends on the evaluator's
+        # input through XOR only and one that does not (coordinated equivocation, see Adversary.tla)
+        I = ej.inst
+        cxa = {"input_regs": [1, 1, 1], "insts": [I("I", 0, 0, 0), I("I", 1, 0, 1), I("I", 2, 0, 2), I("X", 0, 1, 3), I("X", 3, 2, 3),
+                                                  I("A", 0, 1, 4)], "max_reg": 5, "output_regs": [3, 4], "and_ops": 1}
+        out.append(("n3.last.eval", cxa, 3, 2, [0, 1], 2))
     if prop == "C03" or not q:
         # a circuit without AND gates and a deceived garbler outside the output set: nothing downstream (row decryption,
         # output labels) can turn an unnoticed equivocation into an error by accident
@@ -109,6 +116,10 @@ def run_campaign(prop, tier, v, wd, rng, fams=None, sample=None):
                     jobs.append(ej.job(f"{name}.{fam}.{i}.{k}", circ, ej.rand_inputs(rng, circ), pe, po, cap=1,
                                        pol=ej.policy(rng, n), events=False, devs=devs, taps=taps,
                                        tag=dict(sc, cfgname=name)))
+    # the recorded runs of the defects repaired so far
+    for j in vlib.regression_jobs(prop, "engine-job"):
+        if "devs" in j.get("tag", {}):
+            jobs.append(j)
     out = vlib.run_pt("engine", jobs, wd, name="adv", timeout=7200)
     res = vlib.tlc_trace("Mon_Adv", vlib.MON_CFG, out, wd, depth_first=False, timeout=3600)
     return jobs, out, res, nscen
@@ -163,7 +174,8 @@ def check_adv(prop, tier, replay):
         appl = {}
         cur = None
         for r in vlib.read_ndjson_filtered(out, '"ev":"end"'):
-            appl[r["run"]] = (bool(r.get("applied")) and all(r["applied"])) or r.get("taps_hit", 0) > 0
+            # (a later alteration of a coordinated pair may never be reached because the first one is caught)
+            appl[r["run"]] = (bool(r.get("applied")) and any(r["applied"])) or r.get("taps_hit", 0) > 0
         by_what = {}
         for j in jobs:
             w = (j["tag"].get("fam"), j["tag"].get("what"))
